@@ -5,13 +5,18 @@
 (* class hierarchy, and the final test of `check_integrand_arity`.          *)
 (*                                                                         *)
 (* An ARITY is what a handler returns or the fact that it raised            *)
-(* ArityMismatch:   [rej |-> BOOLEAN, s |-> set of <<number, conj>>,        *)
-(*                   m |-> set of argument numbers mentioned below]         *)
+(* ArityMismatch:   [rej |-> BOOLEAN, s |-> set of <<number, conj, part>>,  *)
+(*                   m |-> set of arguments <<number, part>> mentioned      *)
+(*                         below]                                           *)
+(* An Argument object is identified by <<number, part>> (part = -1 for      *)
+(* part None: the arguments of one number either all carry a part - block   *)
+(* systems - or none does); several handlers look at the NUMBER only.       *)
 (* `s` is the tuple of (Argument, conjugated?) pairs of the code, as a set  *)
-(* (the code keeps these tuples duplicate free and sorted by number, the    *)
-(* only order-sensitive comparison `a != b` in `sum` therefore compares     *)
-(* sets; a tuple holding one argument with both conjugation states is       *)
-(* rejected by every consumer and by the final test).  conj is 0 / 1.       *)
+(* (the code keeps these tuples duplicate free and sorted by (number,       *)
+(* part), the order-sensitive comparisons `a != b` in `sum` and             *)
+(* `conditional` therefore compare sets; a tuple holding one argument with  *)
+(* both conjugation states is rejected by every consumer and by the final   *)
+(* test).  conj is 0 / 1.                                                   *)
 (* `m` is what `traverse_unique_terminals` finds (used by the handler       *)
 (* `nonlinear_operator`, which does not visit operands).  An exception      *)
 (* raised below propagates: see Lift.                                       *)
@@ -28,7 +33,9 @@ EXTENDS Integers, Sequences, FiniteSets
 
 Rej(m)   == [rej |-> TRUE, s |-> {}, m |-> m]
 Ok(s, m) == [rej |-> FALSE, s |-> s, m |-> m]
-Nums(s)  == {p[1] : p \in s}
+Nums(s)  == {p[1] : p \in s}               \* x[0].number() for x in s
+ArgsOf(s) == {<<p[1], p[3]>> : p \in s}     \* {x[0] for x in s}: the Argument objects
+NoPart == 0 - 1                             \* Argument.part() is None
 SeqRange(q) == {q[k] : k \in DOMAIN q}
 Mentions(ops) == UNION {ops[k].m : k \in DOMAIN ops}
 \* an ArityMismatch raised while an operand was visited propagates through every handler that
@@ -41,8 +48,8 @@ Lift(ops, r) == IF \E k \in DOMAIN ops : ops[k].rej THEN Rej(Mentions(ops)) ELSE
 \* def terminal(self, o): return self._et
 H_terminal == Ok({}, {})
 
-\* def argument(self, o): return ((o, False),)
-H_argument(n) == Ok({<<n, 0>>}, {n})
+\* def argument(self, o): return ((o, False),)         o = Argument(V, n, part p)
+H_argument(n, p) == Ok({<<n, 0, p>>}, {<<n, p>>})
 
 \* def nonlinear_operator(self, o): no operands are visited; raises iff an Argument is among the
 \* terminals of o.   expr = nonlinear_operator
@@ -62,15 +69,17 @@ H_product(a, b) ==
   LET m == a.m \cup b.m IN
   Lift(<<a, b>>,
     IF a.s # {} /\ b.s # {} THEN
-      IF Nums(a.s) \cap Nums(b.s) # {} THEN Rej(m)      \* overlapping argument numbers
-      ELSE LET c == a.s \cup b.s IN
+      \* overlapping argument NUMBERS ("test*test, trial*trial, even for different parts in a
+      \* block system")
+      IF Nums(a.s) \cap Nums(b.s) # {} THEN Rej(m)
+      ELSE LET c == a.s \cup b.s IN                     \* set(a + b)
            IF Cardinality(c) # Cardinality(a.s) + Cardinality(b.s)
-              \/ Cardinality(c) # Cardinality(Nums(c))   \* one Argument object per number
+              \/ Cardinality(c) # Cardinality(ArgsOf(c)) \* len(c) != len({x[0] for x in c})
            THEN Rej(m) ELSE Ok(c, m)
     ELSE IF a.s # {} THEN Ok(a.s, m) ELSE Ok(b.s, m))
 
 \* def conj(self, o, a): return tuple((a_[0], not a_[1]) for a_ in a)
-H_conj(a) == Lift(<<a>>, Ok({<<p[1], 1 - p[2]>> : p \in a.s}, a.m))
+H_conj(a) == Lift(<<a>>, Ok({<<p[1], 1 - p[2], p[3]>> : p \in a.s}, a.m))
 
 \* inner = dot: product(a, conj(b));  outer: product(conj(a), b)
 H_inner(a, b) == H_product(a, H_conj(b))
@@ -99,6 +108,8 @@ H_conditional(c, a, b, tz, fz) ==
 H_linear_indexed_type(a, i) == Lift(<<a, i>>, Ok(a.s, a.m))
 
 \* def list_tensor(self, o, *ops);  zs[k]: operand k is an instance of Zero
+\* The components must depend on the same argument NUMBERS ("ignoring parts": <v_part0, v_part1>
+\* is the test function of a block system); the result is the union of the components' tuples.
 \* as coded: components WITHOUT arguments are ignored whatever they are.
 \* intended: "Allow e.g. <v[0], 0, v[1]> but not <v[0], u[0]>": a component without arguments
 \*           must be the literal zero (the rule `conditional` applies to its branches).
@@ -115,11 +126,12 @@ H_list_tensor(rule, ops, zs) ==
 
 -----------------------------------------------------------------------------
 (* check_integrand_arity(expr, arguments, complex_mode): A is the arity of expr, formargs the *)
-(* set of numbers of `arguments`.                                                           *)
+(* set of `arguments` (pairs <<number, part>>).                                              *)
 \* args = tuple(a[0] for a in arg_tuples); if args != arguments: raise
 ExactlyFormArgs(A, formargs) ==
-  Cardinality(A.s) = Cardinality(Nums(A.s)) /\ Nums(A.s) = formargs
-\* complex mode: the test function conjugated, every other argument not
+  Cardinality(A.s) = Cardinality(ArgsOf(A.s)) /\ ArgsOf(A.s) = formargs
+\* complex mode: the test function (number 0, every part of it) conjugated, every other argument
+\* (number 1, 2, ...) not
 ConjDiscipline(A) == \A p \in A.s : IF p[1] = 0 THEN p[2] = 1 ELSE p[2] = 0
 Accepted(A, formargs, complex) ==
   ~A.rej /\ ExactlyFormArgs(A, formargs) /\ (complex => ConjDiscipline(A))
@@ -130,7 +142,7 @@ Accepted(A, formargs, complex) ==
 (* body defines one (`terminal` for Terminal, `expr` = nonlinear_operator for Expr).           *)
 (* A lowered term is a sequence of nodes, operands before users:                              *)
 (*   [h |-> handler names along the MRO of the node's class, nearest first (ends in "expr"),  *)
-(*    n |-> argument number (or -1), z |-> 1 iff instance of Zero,                            *)
+(*    n |-> argument number (or -1), p |-> its part (-1: None), z |-> 1 iff instance of Zero,  *)
 (*    a |-> sequence of operand positions]                                                    *)
 LinearKinds == {"positive_restricted", "negative_restricted", "cell_avg", "facet_avg", "grad",
                 "reference_grad", "reference_value"}
@@ -142,7 +154,7 @@ Resolve(h) == h[CHOOSE j \in 1..Len(h) : h[j] \in Handlers /\ \A l \in 1..(j - 1
 NodeArity(nd, ops, zs, rule) ==
   LET k == Resolve(nd.h) IN
   CASE k = "terminal"         -> H_terminal
-    [] k = "argument"         -> H_argument(nd.n)
+    [] k = "argument"         -> H_argument(nd.n, nd.p)
     [] k = "expr"             -> H_nonlinear_operator(ops)
     [] k = "sum"              -> H_sum(ops[1], ops[2])
     [] k = "division"         -> H_division(ops[1], ops[2])
